@@ -1,0 +1,8 @@
+//go:build !verif
+
+package writer
+
+func vpoolGetState(s *writerState) {}
+func vpoolPutState(s *writerState) {}
+func vpoolGetWriter(w *writer)     {}
+func vpoolPutWriter(w *writer)     {}
